@@ -120,6 +120,15 @@ def pg_eom(seq, V, St, w):
         return  # sequence left in EOM mode
 
 
+def _prog_detmap(seq, w, key):
+    """The world's detuning map `key` defined on the PROGRAM's own register (2D or 3D; ids by position)."""
+    reg = seq.get_register(include_mappable=True)
+    if hasattr(reg, "qubits"):
+        ids = list(reg.qubit_ids)
+        return reg.define_detuning_map({ids[i]: wt for i, (q, wt) in enumerate(w.detmaps[key].items()) if i < len(ids)})
+    return w.detmap(key)
+
+
 def pg_dmm_slm(seq, V, St, w):
     from pulser import Pulse
     from pulser.waveforms import ConstantWaveform, RampWaveform
@@ -127,10 +136,10 @@ def pg_dmm_slm(seq, V, St, w):
     if St(0):
         seq.config_slm_mask([Q(0)])  # before the first channel
     if St(1):
-        seq.config_detuning_map(w.detmap("m2"), "dmm_1")  # DMM before the first channel
+        seq.config_detuning_map(_prog_detmap(seq, w, "m2"), "dmm_1")  # DMM before the first channel
     seq.declare_channel("g", "rydberg_global")
     if St(2):
-        seq.config_detuning_map(detuning_map=w.detmap("m1"), dmm_id="dmm_1")
+        seq.config_detuning_map(detuning_map=_prog_detmap(seq, w, "m1"), dmm_id="dmm_1")
     seq.add(Pulse.ConstantPulse(V(0, 100, True), V(1, 1.0), 0.0, 0.0), "g")
     if St(3) and not St(0):
         seq.config_slm_mask(qubits=[Q(1), Q(2)], dmm_id="dmm_0")  # after a pulse
@@ -139,6 +148,8 @@ def pg_dmm_slm(seq, V, St, w):
             seq.add_dmm_detuning(ConstantWaveform(V(2, 100, True), V(3, -2.0)), "dmm_1")
         else:
             seq.add_dmm_detuning(waveform=RampWaveform(60, V(3, -2.0), 0.0), dmm_name="dmm_1", protocol="min-delay")
+    if St(7) and St(3) and not St(0):
+        seq.add_dmm_detuning(ConstantWaveform(100, -1.0), "dmm_0")  # more detuning on the DMM that carries the SLM mask
     if St(5):
         seq.declare_channel("r", "rydberg_local", [Q(0), Q(1)])  # declared late, multi target
         seq.add(Pulse.ConstantPulse(52, 1.0, 0.0, 0.0), "r", "no-delay")
@@ -190,9 +201,15 @@ def pg_arbphase(seq, V, St, w):
         seq.add(Pulse.ConstantDetuning(InterpolatedWaveform(V(4, 120, True), [0.0, 1.0, 0.2, 0.8], interpolator="interp1d"), 0.0, 0.0), "g")
     if St(6):
         seq.add(Pulse.ConstantDetuning(KaiserWaveform(V(4, 120, True), V(5, 0.6), beta=V(6, 5.0)), 0.0, 0.0), "g")
+    if St(7):
+        # every constructor argument by keyword (waveforms and pulses)
+        seq.add(Pulse.ConstantDetuning(amplitude=BlackmanWaveform(duration=V(4, 120, True), area=V(5, 0.6)), detuning=V(6, 5.0), phase=0.0), "g")
+    if St(8):
+        seq.add(Pulse(amplitude=ConstantWaveform(duration=V(4, 120, True), value=V(5, 0.6)),
+                      detuning=RampWaveform(duration=V(4, 120, True), start=V(6, 5.0), stop=0.0), phase=0.5, post_phase_shift=0.25), channel="g")
 
 
-PROGRAMS = {"styles": (pg_styles, 16), "eom": (pg_eom, 9), "dmm_slm": (pg_dmm_slm, 7), "xy": (pg_xy, 5), "arbphase": (pg_arbphase, 7)}
+PROGRAMS = {"styles": (pg_styles, 16), "eom": (pg_eom, 9), "dmm_slm": (pg_dmm_slm, 8), "xy": (pg_xy, 5), "arbphase": (pg_arbphase, 9)}
 
 REGS = ["2d", "2d-layout", "3d", "3d-layout", "mappable", "mappable-3d"]  # {2D, 3D} x {plain, from a layout, mappable}
 DEVS = ["virtual", "MockDevice", "custom-physical", "builtin-name-other-specs", "builtin-name-virtual"]
@@ -302,7 +319,7 @@ def cases(tier):
                 out.append((name, tuple(sorted(act)), (), regkind, devkind))
         # registers x devices on the plain program and on one deviation
         for regkind, devkind in itertools.product(REGS, DEVS):
-            for act in ((), (0,), (nst - 1,)):
+            for act in ((), (0,), (nst - 1,)) + (((1,), (2, 4)) if name == "dmm_slm" else ()):  # detuning maps on every register kind
                 out.append((name, act, (), regkind, devkind))
         # parametrized variants: each numeric position alone, all positions, pairs (thorough)
         npos = {"styles": 8, "eom": 7, "dmm_slm": 4, "xy": 5, "arbphase": 7}[name]
@@ -321,6 +338,14 @@ def cases(tier):
                 if not act:
                     out.append((name, act, chosen, "mappable-3d", "MockDevice"))
                     out.append((name, act, chosen, "3d-layout", "virtual"))
+        # parametrized (every position a variable) x every single deviation and every PAIR of deviations: calls that are merely
+        # stored (keyword / positional styles, optional arguments) and consulted by the calls that follow
+        allpos = tuple(range(npos))
+        for act in [(i,) for i in range(nst)] + list(itertools.combinations(range(nst), 2)):
+            pos = plain_positions(name, act)
+            chosen = tuple((p, c08.pick(kinds, p + len(act), pos[p][0], pos[p][1], p)) for p in allpos if p in pos)
+            if chosen:
+                out.append((name, act, chosen, "2d", "virtual"))
         out.append((name, (), ((0, "round"),), "2d", "virtual"))
         # integer qubit ids (in and out of register order): the abstract representation stores ids as strings and
         # addresses qubits by index, so the decoded sequence must equal the same program written with str(id)
@@ -345,6 +370,7 @@ def cases(tier):
                     out.append(("c08prog", name, ((p8, k8),), False))
                     if isinstance(pos[p8][0], c08.ArrBase) or tier == "thorough":
                         out.append(("c08prog", name, ((p8, k8),), True))
+    out += [("dechist", k1, k2, codec) for k1 in HIST_KINDS for k2 in HIST_KINDS for codec in ("abstract", "legacy")]
     # de-duplicate
     seen = set()
     uniq = []
@@ -405,7 +431,7 @@ def run_shared(what, i, j):
                 else:
                     tmpl.add(Pulse.ConstantDetuning(c08._pair_wf(c08.PAIR_WFS[k], t, a), 0.0, 0.0), "g")
         except Exception as e:
-            return [("@program-not-constructible", type(e).__name__)]
+            return gridx.crash_finding(e, "building-a-program", f"shared {what} {i} {j}") or [("@program-not-constructible", type(e).__name__)]
         names = (c08.PAIR_EXPRS[i][0], c08.PAIR_EXPRS[j][0]) if what == "expr" else (c08.PAIR_WFS[i], c08.PAIR_WFS[j])
         for codec in ("abstract", "legacy"):
             try:
@@ -462,7 +488,7 @@ def run_c08prog(name, chosen_t, mappable):
         try:
             c08.SKELETONS[name](tmpl, TV, w)
         except Exception as e:
-            return [("@program-not-constructible", type(e).__name__)]
+            return gridx.crash_finding(e, "building-a-program", f"c08 skeleton {name} {chosen}") or [("@program-not-constructible", type(e).__name__)]
         if TV.skip:
             return [("@expression-not-applicable", "")]
         kinds = "+".join(sorted(set(chosen.values())))
@@ -505,10 +531,113 @@ def run_c08prog(name, chosen_t, mappable):
                 s1, s2 = snapshot.snap(b1, False), snapshot.snap(b2, False)
                 if norm(s1) != norm(s2):
                     out.append((f"C04:decoded-build-differs:{codec}:c08-{name}:{_diff(s1, s2)}:{kinds}", f"{chosen} assignment {tag}"))
+        # exporting WITH default values for the variables (and default traps for a mappable register): same document plus the values
+        valsA = TV.var_values(A)
+        if valsA is not None and (valsA or qmap):
+            try:
+                tmpl.build(**valsA, **qmap)
+                buildable = True
+            except Exception:
+                buildable = False
+            if buildable:
+                try:
+                    doc = tmpl.to_abstract_repr(**{k: (list(v) if isinstance(v, (list, tuple, np.ndarray)) else v) for k, v in valsA.items()}, **qmap)
+                    d = json.loads(doc)
+                    err = own_validate(d)
+                    if err:
+                        out.append((f"C04:schema-invalid:with-defaults:c08-{name}", f"{chosen}: {err}"))
+                    for vn, vv in valsA.items():
+                        got = d["variables"][vn].get("value")
+                        want = [float(x) for x in np.atleast_1d(np.asarray(vv, dtype=float))]
+                        if got is None or [float(x) for x in got] != want:
+                            out.append((f"C04:default-values-not-stored:c08-{name}", f"{chosen}: variable {vn} given {want}, document holds {got}"))
+                    if qmap:
+                        reg_doc = {q["qid"]: q.get("default_trap") for q in d["register"]}
+                        if any(reg_doc.get(str(q)) != t for q, t in qmap["qubits"].items()):
+                            out.append((f"C04:default-traps-not-stored:c08-{name}", f"{chosen}: given {qmap['qubits']}, document holds {reg_doc}"))
+                    dec = Sequence.from_abstract_repr(doc)
+                    b1, b2 = tmpl.build(**valsA, **qmap), dec.build(**valsA, **qmap)
+                    compared += 1
+                    if norm(snapshot.snap(b1, False)) != norm(snapshot.snap(b2, False)):
+                        out.append((f"C04:decoded-build-differs:abstract:with-defaults:c08-{name}", f"{chosen}"))
+                except Exception as e:
+                    if "No abstract representation for" not in str(e) and "of unknown length and unspecified 'times'" not in str(e):
+                        out.append((f"C04:export-with-defaults-raises:c08-{name}:{type(e).__name__}", f"{chosen} {valsA}: {e}"[:250]))
     return out + [("@roundtrip" if compared else "@nothing-built", "")]
 
 
+# ---- two documents decoded one after the other in ONE process -------------------------------------------------------------
+# Templates that use the SAME variable names with different sizes / types / roles: whatever the first decoding leaves behind in
+# the process (tables of variables, caches) must not reach the second one.
+def _hist_template(kind, w):
+    from pulser import Pulse
+
+    seq = w.fresh(apply_prefix=False)
+    seq.declare_channel("g", "rydberg_global")
+    if kind == "t-int":
+        t = seq.declare_variable("t", dtype=int)
+        seq.add(Pulse.ConstantPulse(t, 1.0, 0.0, 0.0), "g")
+        return seq, [dict(t=100), dict(t=200)]
+    if kind == "t-int-2":
+        t = seq.declare_variable("t", dtype=int, size=2)
+        seq.add(Pulse.ConstantPulse(t[0], 1.0, 0.0, 0.0), "g")
+        seq.delay(t[1], "g")
+        return seq, [dict(t=[100, 52]), dict(t=[200, 100])]
+    if kind == "t-float":
+        t = seq.declare_variable("t", dtype=float)
+        seq.add(Pulse.ConstantPulse(100, t, 0.0, 0.0), "g")
+        return seq, [dict(t=1.5), dict(t=0.25)]
+    if kind == "t-float-3":
+        t = seq.declare_variable("t", dtype=float, size=3)
+        seq.add(Pulse.ConstantPulse(100, t[0], t[1], t[2]), "g")
+        return seq, [dict(t=[1.5, -1.0, 0.5]), dict(t=[0.25, 2.0, 0.0])]
+    if kind == "a-and-t":
+        a = seq.declare_variable("a", dtype=float)
+        t = seq.declare_variable("t", dtype=float)
+        seq.add(Pulse.ConstantPulse(100, a + t, a - t, 0.0), "g")
+        return seq, [dict(a=1.0, t=0.5), dict(a=2.0, t=-0.5)]
+    if kind == "plain":
+        seq.add(Pulse.ConstantPulse(100, 1.0, 0.0, 0.0), "g")
+        return seq, [dict()]
+    raise ValueError(kind)
+
+
+HIST_KINDS = ["t-int", "t-int-2", "t-float", "t-float-3", "a-and-t", "plain"]
+
+
+def run_decode_history(k1, k2, codec):
+    from pulser import Sequence
+
+    w = World(WSPEC)
+    out = []
+    with warnings.catch_warnings():
+        warnings.simplefilter("ignore")
+        try:
+            (s1, a1), (s2, a2) = _hist_template(k1, w), _hist_template(k2, w)
+            d1, d2 = ((s.to_abstract_repr() if codec == "abstract" else s._serialize()) for s in (s1, s2))
+        except Exception as e:
+            return gridx.crash_finding(e, "building-a-program", f"{k1} {k2}") or [("@program-not-constructible", type(e).__name__)]
+        dec = (lambda d: Sequence.from_abstract_repr(d)) if codec == "abstract" else (lambda d: Sequence._deserialize(d))
+        for which, (doc, orig, assigns) in (("first", (d1, s1, a1)), ("second", (d2, s2, a2)), ("first-again", (d1, s1, a1))):
+            try:
+                got = dec(doc)
+            except Exception as e:
+                out.append((f"C04:decode-raises-after-another-decoding:{codec}:{type(e).__name__}", f"{which} document ({k1} then {k2}): {e}"[:200]))
+                continue
+            for kw in assigns:
+                try:
+                    b1, b2 = orig.build(**kw) if orig.is_parametrized() else orig, got.build(**kw) if got.is_parametrized() else got
+                except Exception as e:
+                    out.append((f"C04:decoded-build-raises-after-another-decoding:{codec}:{type(e).__name__}", f"{which} document ({k1} then {k2}) with {kw}: {e}"[:200]))
+                    continue
+                if norm(snapshot.snap(b1, False)) != norm(snapshot.snap(b2, False)):
+                    out.append((f"C04:decoded-build-differs-after-another-decoding:{codec}", f"{which} document ({k1} then {k2}) with {kw}"))
+    return out + [("@roundtrip", "")]
+
+
 def run_case(case):
+    if case[0] == "dechist":
+        return run_decode_history(case[1], case[2], case[3])
     if case[0] == "shared":
         return run_shared(case[1], case[2], case[3])
     if case[0] == "c08prog":
@@ -536,7 +665,7 @@ def run_case_prog(case):
                 ref, _, ref_mapping = build_program(name, active, chosen, regkind, devkind, "template" if chosen else "plain",
                                                     idkind={"int": "strnum", "intperm": "strnumperm"}[idkind])
         except Exception as e:
-            return [("@program-not-constructible", f"{type(e).__name__}")]
+            return gridx.crash_finding(e, "building-a-program", f"{case}") or [("@program-not-constructible", f"{type(e).__name__}")]
         idt = "" if idkind == "str" else f":ids={idkind}"
         if V.skip:
             return [("@expression-not-applicable", "")]
@@ -569,6 +698,8 @@ def run_case_prog(case):
                 msg = str(e)
                 if "Export of an InterpolatedWaveform is only supported" in msg or "'interpolator' is not in the signature" in msg:
                     out.append((f"C04:encode-unsupported-interpolator:{codec}", f"{case}: {e}"[:250]))
+                elif regkind.startswith("3d") and "too many values to unpack" in msg and any(type(c).__name__ == "DMM" for c in seq.declared_channels.values()):
+                    out.append((f"C04:encode-unsupported-3d-detuning-map:{codec}", f"{case}: {e}"[:250]))
                 elif "No abstract representation for" in msg:
                     op = msg.split("'")[1] if "'" in msg else "?"
                     out.append((f"C04:encode-unsupported-expression:{codec}:{op}", f"{case}: {e}"[:250]))
@@ -639,14 +770,14 @@ def run_case_prog(case):
 def run(tier, seed):
     res = Result("exploration")
     cs = cases(tier)
-    outs = gridx.run(run_case, cs)
+    outs = gridx.run(run_case, cs, isolate=True)
     classes = {}
     for c, r in zip(cs, outs):
         for fp, d in r:
             if fp.startswith("@"):
                 classes[fp] = classes.get(fp, 0) + 1
             else:
-                if c[0] == "shared":
+                if c[0] in ("shared", "dechist"):
                     res.add(Violation(fp, d, {"engine": "progx", "case": list(c)}, size=0))
                     continue
                 if c[0] == "c08prog":
@@ -671,7 +802,7 @@ def run(tier, seed):
 
 def replay(payload):
     c = payload["case"]
-    if c[0] == "shared":
+    if c[0] in ("shared", "dechist"):
         return [Violation(fp, d, payload) for fp, d in run_case(tuple(c)) if not fp.startswith("@")]
     if c[0] == "c08prog":
         return [Violation(fp, d, payload) for fp, d in run_case((c[0], c[1], tuple((int(p), k) for p, k in c[2]), c[3])) if not fp.startswith("@")]
